@@ -207,12 +207,13 @@ def run_parallel(cmd, cases, chunk=None, timeout=120):
         outs = list(ex.map(lambda p: run_cases(cmd, p, timeout), parts))
     return [o for part in outs for o in part]
 
-def safe_pred(stream, ops, io):
+def safe_pred(stream, ops, io, shrunk=False):
     """predicates are written for well-formed cases; a shrunk candidate may not be one (e.g. its `conn` line is gone)"""
     if not stream.predicate:
         return None
-    if any(l.split(" ", 1)[0] in ("no-conn", "no-broker", "bad-op", "badsize") for l in io):
-        return None        # not a well-formed case (only shrinking produces these)
+    bad = ("no-broker", "bad-op", "badsize") + (("no-conn",) if shrunk else ())
+    if any(l.split(" ", 1)[0] in bad for l in io):
+        return None        # not a well-formed case (shrinking produces these; `no-conn` is legitimate after a refusal)
     try:
         return stream.predicate(ops, io)
     except (KeyError, IndexError, ValueError, AttributeError, TypeError):
@@ -431,7 +432,7 @@ class Run:
                 st["known"] += 1       # recognised without shrinking
                 continue
             def fails(c):
-                return bool(safe_pred(stream, c, stream.impl([c])[0]))
+                return bool(safe_pred(stream, c, stream.impl([c])[0], shrunk=True))
             small = ddmin(ops, stream.keep_prefix, fails)
             io, mo = stream.both(small)
             why = safe_pred(stream, small, io) or why
